@@ -85,6 +85,103 @@ theorem splitLoop_none (rest : Bytes) (t : Token) (hv : t.val.length = t.len)
       exact ih (i + 1)
     · simp only [hi, ↓reduceIte]
 
+/-- the keyword-split loop finds nothing when the text before every `.` / back-tick is no keyword (class 0) or a bareword -/
+theorem splitLoop_safe (rest : Bytes) (t : Token) (hv : t.val.length = t.len)
+    (hdots : ∀ i, ∀ hi : i < t.val.length, (t.val[i] = 46 ∨ t.val[i] = 96) →
+      searchKeyword (t.val.take i) = 0 ∨ searchKeyword (t.val.take i) = 110) : ∀ fuel i, splitLoop rest t i fuel = .ok none := by
+  intro fuel
+  induction fuel with
+  | zero => intro i; rfl
+  | succ fuel ih =>
+    intro i
+    unfold splitLoop
+    by_cases hi : i < t.len
+    · have hlt : i < t.val.length := by omega
+      simp only [hi, ↓reduceIte, at'_ok hlt, bind, Except.bind]
+      by_cases hd : (t.val[i] == 46 || t.val[i] == 96) = true
+      · have hd' : t.val[i] = 46 ∨ t.val[i] = 96 := by simpa using hd
+        have hk := hdots i hlt hd'
+        simp only [hd, ↓reduceIte, slice_ok t.val 0 i (Nat.zero_le _) (by omega), List.drop_zero, Nat.sub_zero]
+        have e : (searchKeyword (t.val.take i) != 0 && searchKeyword (t.val.take i) != 110) = false := by
+          rcases hk with h | h <;> simp [h]
+        simp only [e, Bool.false_eq_true, ↓reduceIte]
+        exact ih (i + 1)
+      · simp only [hd, Bool.false_eq_true, ↓reduceIte]
+        exact ih (i + 1)
+    · simp only [hi, ↓reduceIte]
+
+/-- a dotted identifier `w1.w2` that is no key, starts no phrase, and whose first part is no keyword -/
+def GoodDotted (w : Bytes) : Prop :=
+  ∃ w1 w2, w = w1 ++ 46 :: w2 ∧ (∃ c t, w1 = c :: t ∧ isWordStartB c = true ∧ t.all isWordByteB = true) ∧
+    w2 ≠ [] ∧ w2.all isWordByteB = true ∧ (searchKeyword w1 = 0 ∨ searchKeyword w1 = 110) ∧
+    (w.length < 32 → searchKeyword w = 0) ∧ (w.length ≤ 31 → PhraseFree w)
+
+theorem dot_word_facts : notWordAccept 46 = true := by decide +kernel
+
+/-- **a good dotted identifier is lexed as one bareword** spanning exactly its text -/
+theorem parseWord_dotted (w r : Bytes) (hw : GoodDotted w) (hr : SepW r) :
+    parseWord (w ++ r) = .ok { tok := { cat := 110, pos := 0, len := clip w.length, val := w.take (clip w.length) },
+                               next := w.length } := by
+  obtain ⟨w1, w2, hwe, ⟨c, t, hw1, hc, ht⟩, hne2, hall2, hk1, hkw, _⟩ := hw
+  have hall1 : w1.all isWordByteB = true := by rw [hw1]; simp [isWordByteB, hc, ht]
+  have hnw : w.all notWordAccept = true := by
+    rw [hwe]
+    simp only [List.all_append, List.all_cons, Bool.and_eq_true]
+    exact ⟨all_imp hall1 (fun c hc => (wordByte_facts c hc).1), dot_word_facts, all_imp hall2 (fun c hc => (wordByte_facts c hc).1)⟩
+  have hlen : 1 ≤ w.length := by rw [hwe]; simp; omega
+  have hspn := spn_runW notWordAccept w r hnw hr space_facts.1 at_facts
+  have hcl := clip_le w.length
+  unfold parseWord
+  simp only [hspn]
+  rw [assign_ok _ _ _ _ _ (by simp; omega)]
+  simp only [bind, Except.bind, pure, Except.pure]
+  have htake : (w ++ r).take (clip w.length) = w.take (clip w.length) := by
+    rw [List.take_append_of_le_length (by omega)]
+  rw [htake]
+  rw [splitLoop_safe (w ++ r) _ (by simp; omega) (by
+    intro i hi hd
+    simp only [List.length_take] at hi
+    have hiw : i < w.length := by omega
+    have hgi : (w.take (clip w.length))[i]'(by simp; omega) = w[i] := by simp
+    simp only [hgi] at hd
+    -- the only `.` of `w` is the one after `w1`
+    have hi1 : i = w1.length := by
+      rcases Nat.lt_trichotomy i w1.length with h | h | h
+      · exfalso
+        have hm : w[i] ∈ w1 := by
+          have := List.getElem?_append_left (l₁ := w1) (l₂ := 46 :: w2) h
+          rw [← hwe, List.getElem?_eq_getElem hiw] at this
+          exact List.mem_of_getElem? this.symm
+        have := wordByte_facts _ (List.all_eq_true.mp hall1 _ hm)
+        rcases hd with hd | hd
+        · exact this.2.1 hd
+        · exact this.2.2.1 hd
+      · exact h
+      · exfalso
+        have hm : w[i] ∈ w2 := by
+          have h1 : w[i]? = (46 :: w2)[i - w1.length]? := by
+            rw [← List.getElem?_append_right (by omega : w1.length ≤ i), ← hwe]
+          rw [List.getElem?_eq_getElem hiw, show i - w1.length = (i - w1.length - 1) + 1 by omega] at h1
+          simp only [List.getElem?_cons_succ] at h1
+          exact List.mem_of_getElem? h1.symm
+        have := wordByte_facts _ (List.all_eq_true.mp hall2 _ hm)
+        rcases hd with hd | hd
+        · exact this.2.1 hd
+        · exact this.2.2.1 hd
+    have htk : (w.take (clip w.length)).take i = w1 := by
+      rw [List.take_take, hi1, Nat.min_eq_left (by omega), hwe, List.take_left]
+    rw [htk]; exact hk1)]
+  simp only []
+  by_cases hlt : w.length < tokenSize
+  · have hc' : clip w.length = w.length := clip_of_lt hlt
+    simp only [hlt, ↓reduceIte, hc']
+    rw [slice_ok _ 0 w.length (by omega) (by simp)]
+    have e : ((w.take w.length).drop 0).take (w.length - 0) = w := by simp
+    rw [e]
+    simp only [hkw hlt]
+    simp
+  · simp only [hlt, ↓reduceIte]
+
 /-- **a good word is lexed as one bareword** spanning exactly the word -/
 theorem parseWord_good (w r : Bytes) (hw : GoodWord w) (hr : SepW r) :
     parseWord (w ++ r) = .ok { tok := { cat := 110, pos := 0, len := clip w.length, val := w.take (clip w.length) },
@@ -461,6 +558,68 @@ theorem runP_goodWord (flags : Nat) (w r : Bytes) (hw : GoodWord w) (hr : SepW r
   · rw [parseXBString_word _ _ hq]; exact hword
   · rw [parseEString_word _ hq]; exact hword
 
+theorem dotted_bytes {w : Bytes} (h : GoodDotted w) : (∀ x ∈ w, isWordByteB x = true ∨ x = 46) ∧ 3 ≤ w.length ∧
+    ∃ c t, w = c :: t ∧ isWordStartB c = true := by
+  obtain ⟨w1, w2, hwe, ⟨c, t, hw1, hc, ht⟩, hne2, hall2, _⟩ := h
+  have hall1 : w1.all isWordByteB = true := by rw [hw1]; simp [isWordByteB, hc, ht]
+  have hl2 : 1 ≤ w2.length := length_pos_of_ne_nil hne2
+  refine ⟨?_, by rw [hwe, hw1]; simp; omega, c, t ++ 46 :: w2, by rw [hwe, hw1]; simp, hc⟩
+  intro x hx
+  rw [hwe] at hx
+  rcases List.mem_append.mp hx with h | h
+  · exact Or.inl (List.all_eq_true.mp hall1 x h)
+  · rcases List.mem_cons.mp h with rfl | h
+    · exact Or.inr rfl
+    · exact Or.inl (List.all_eq_true.mp hall2 x h)
+
+theorem noQuote_dotted (w r : Bytes) (hw : GoodDotted w) (hr : SepW r) : NoQuote (w ++ r) := by
+  obtain ⟨hb, hl3, _⟩ := dotted_bytes hw
+  have key : ∀ i x, i < w.length → (w ++ r)[i]? = some x → x ≠ 39 ∧ x ≠ 38 := by
+    intro i x hi hx
+    rw [List.getElem?_append_left hi] at hx
+    rcases hb x (List.mem_of_getElem? hx) with h | h
+    · have := wordByte_facts x h; exact ⟨this.2.2.2.1, this.2.2.2.2.1⟩
+    · subst h; decide
+  exact ⟨fun x hx => key 1 x (by omega) hx, fun _ x hx => (key 2 x (by omega) hx).1⟩
+
+/-- through the dispatch table, a good dotted identifier becomes one bareword -/
+theorem runP_goodDotted (flags : Nat) (w r : Bytes) (hw : GoodDotted w) (hr : SepW r) (c : UInt8) (hc : (w ++ r)[0]? = some c) :
+    runP flags (w ++ r) (dispatch c) = .ok { tok := goodTok 110 w, next := w.length } := by
+  obtain ⟨_, _, c0, t, hwe, hc0⟩ := dotted_bytes hw
+  have hcc : c = c0 := by
+    rw [hwe] at hc; simpa using hc.symm
+  subst hcc
+  have hne : w ++ r ≠ [] := by rw [hwe]; simp
+  have hq := noQuote_dotted w r hw hr
+  have hword := parseWord_dotted w r hw hr
+  have hd := dispatch_wordStart c hc0
+  unfold runP
+  cases hdc : dispatch c <;> simp only [hdc, wordyP] at hd ⊢ <;> (try (exact absurd hd (by decide)))
+  · exact hword
+  · rw [parseUString_word _ hq]; exact hword
+  · rw [parseQStringCore_word _ 0 (by omega) hne hq]; exact hword
+  · rw [parseNqString_word _ hne hq]; exact hword
+  · rw [parseXBString_word _ _ hq]; exact hword
+  · rw [parseXBString_word _ _ hq]; exact hword
+  · rw [parseEString_word _ hq]; exact hword
+
+theorem dottedTok_benign (w : Bytes) (hw : GoodDotted w) (p : Nat) : BenignTok { goodTok 110 w with pos := p } := by
+  right; right; left
+  obtain ⟨_, hl3, _⟩ := dotted_bytes hw
+  refine ⟨rfl, clip_pos (by omega), ?_⟩
+  show clip w.length = 31 ∨ PhraseFree (w.take (clip w.length))
+  obtain ⟨_, _, _, _, _, _, _, _, hpf⟩ := hw
+  by_cases hl : w.length ≤ 31
+  · right
+    have hc : clip w.length = w.length := clip_of_lt (by show w.length < 32; omega)
+    rw [hc, List.take_length]
+    exact hpf hl
+  · left
+    unfold clip tokenSize
+    simp only [Gen.tokenSize]
+    have : ¬ w.length < 32 := by omega
+    simp [this]
+
 /-- **through the dispatch table, a good word becomes one bareword and an unsigned integer one number** -/
 theorem runP_good (flags : Nat) (w r : Bytes) (hw : GoodWord w ∨ GoodNum w) (hr : Sep r) (c : UInt8)
     (hc : (w ++ r)[0]? = some c) :
@@ -556,6 +715,8 @@ inductive Txt : Bytes → Prop
   | wordAt {w r : Bytes} : GoodWord w → Txt (64 :: r) → Txt (w ++ 64 :: r)
   | var {vw r : Bytes} : VarBody vw → Sep r → Txt r → Txt (64 :: (vw ++ r))
   | dec {w r : Bytes} : GoodDec w → Sep r → Txt r → Txt (w ++ r)
+  | dotted {w r : Bytes} : GoodDotted w → Sep r → Txt r → Txt (w ++ r)
+  | dottedAt {w r : Bytes} : GoodDotted w → Txt (64 :: r) → Txt (w ++ 64 :: r)
 
 theorem goodTok_benign (cat : UInt8) (w : Bytes) (h : cat = 110 ∧ GoodWord w ∨ cat = 49 ∧ GoodNum w) (p : Nat) :
     BenignTok { goodTok cat w with pos := p } := by
@@ -703,6 +864,50 @@ theorem tokLoop_txt (fuel : Nat) : ∀ (s : State), Txt (s.input.drop s.pos) →
       simp only [hne0, ↓reduceIte]
       refine ⟨true, _, rfl, ?_, rfl, rfl, rfl, rfl, fun _ => ⟨{ goodTok 49 w with pos := (goodTok 49 w).pos + s.pos },
         by simp [List.getElem?_set, hc], Or.inr (Or.inl rfl)⟩⟩
+      show Txt (s.input.drop (s.pos + w.length))
+      rw [drop_add_of _ _ _ _ hd]; exact hr
+    | @dotted w r hw hsep hr =>
+      have hwl : 1 ≤ w.length := by have := (dotted_bytes hw).2.1; omega
+      have hlt : s.pos < s.input.length := by
+        rcases Nat.lt_or_ge s.pos s.input.length with hl | hg
+        · exact hl
+        · rw [List.drop_of_length_le hg] at hd
+          have := congrArg List.length hd
+          simp at this; omega
+      have hl0 : 0 < (s.input.drop s.pos).length := by rw [hd]; simp; omega
+      have hwr : 0 < (w ++ r).length := by simp; omega
+      have hrun := runP_goodDotted s.flags w r hw hsep.toW ((w ++ r)[0]'hwr) (List.getElem?_eq_getElem hwr)
+      have h0 : (s.input.drop s.pos)[0] = (w ++ r)[0]'hwr := by simp [hd]
+      simp only [hlt, ↓reduceIte, sliceFrom_ok s.input s.pos (Nat.le_of_lt hlt), at'_ok hl0, h0,
+        bind, Except.bind, pure, Except.pure]
+      rw [hd, hrun]
+      simp only [tvSet_ok s s.cur _ hc]
+      have hne0 : (({ goodTok 110 w with pos := (goodTok 110 w).pos + s.pos } : Token).cat != 0) = true := rfl
+      simp only [hne0, ↓reduceIte]
+      refine ⟨true, _, rfl, ?_, rfl, rfl, rfl, rfl, fun _ => ⟨{ goodTok 110 w with pos := (goodTok 110 w).pos + s.pos },
+        by simp [List.getElem?_set, hc], dottedTok_benign w hw _⟩⟩
+      show Txt (s.input.drop (s.pos + w.length))
+      rw [drop_add_of _ _ _ _ hd]; exact hr
+    | @dottedAt w r hw hr =>
+      have hwl : 1 ≤ w.length := by have := (dotted_bytes hw).2.1; omega
+      have hlt : s.pos < s.input.length := by
+        rcases Nat.lt_or_ge s.pos s.input.length with hl | hg
+        · exact hl
+        · rw [List.drop_of_length_le hg] at hd
+          have := congrArg List.length hd
+          simp at this
+      have hl0 : 0 < (s.input.drop s.pos).length := by rw [hd]; simp; omega
+      have hwr : 0 < (w ++ 64 :: r).length := by simp; omega
+      have hrun := runP_goodDotted s.flags w (64 :: r) hw (Or.inr ⟨64, r, rfl, Or.inr rfl⟩) ((w ++ 64 :: r)[0]'hwr) (List.getElem?_eq_getElem hwr)
+      have h0 : (s.input.drop s.pos)[0] = (w ++ 64 :: r)[0]'hwr := by simp [hd]
+      simp only [hlt, ↓reduceIte, sliceFrom_ok s.input s.pos (Nat.le_of_lt hlt), at'_ok hl0, h0,
+        bind, Except.bind, pure, Except.pure]
+      rw [hd, hrun]
+      simp only [tvSet_ok s s.cur _ hc]
+      have hne0 : (({ goodTok 110 w with pos := (goodTok 110 w).pos + s.pos } : Token).cat != 0) = true := rfl
+      simp only [hne0, ↓reduceIte]
+      refine ⟨true, _, rfl, ?_, rfl, rfl, rfl, rfl, fun _ => ⟨{ goodTok 110 w with pos := (goodTok 110 w).pos + s.pos },
+        by simp [List.getElem?_set, hc], dottedTok_benign w hw _⟩⟩
       show Txt (s.input.drop (s.pos + w.length))
       rw [drop_add_of _ _ _ _ hd]; exact hr
     | @var vw r hv hsep hr =>
